@@ -151,6 +151,19 @@ func verifC04Xz(data []byte) []byte {
 	return buf.Bytes()
 }
 
+// verifC04XzSmall compresses with a small encoder dictionary (the generator would otherwise spend its
+// time in the encoder's 8 MiB tables); the decoder's side is not affected.
+func verifC04XzSmall(data []byte) []byte {
+	var buf bytes.Buffer
+	w, err := xz.WriterConfig{DictCap: 1 << 16}.NewWriter(&buf)
+	if err != nil {
+		panic(err)
+	}
+	_, _ = w.Write(data)
+	_ = w.Close()
+	return buf.Bytes()
+}
+
 // verifC04DictSize rewrites the LZMA2 dictionary size byte of the first block header (and its CRC32).
 func verifC04DictSize(stream []byte, d byte) []byte {
 	s := append([]byte(nil), stream...)
@@ -203,7 +216,7 @@ func verifC04Gen(r *verifC04Rng, thorough bool) (cases []verifC04Case) {
 		step = 1
 	}
 	for i := 0; i < len(all); i += step {
-		cases = append(cases, verifC04Case{"bbc-transmission", verifC04Xz(all[i].in)})
+		cases = append(cases, verifC04Case{"bbc-transmission", verifC04XzSmall(all[i].in)})
 	}
 	// an uncompressed bundle, an empty transmission, a highly compressible bundle (honest 60 KiB payload)
 	cases = append(cases, verifC04Case{"bbc-transmission", bundle}, verifC04Case{"bbc-transmission", nil},
